@@ -27,6 +27,7 @@ WHAT = {
     "version_table_google": "Version::Google wire bytes / delegation context / response context equal the protocol's",
     "version_table_rfcdraft13": "Version::RfcDraft13 wire bytes / delegation context / response context equal the protocol's",
     "supported_versions_table": "Version::supported_versions_wire() == wire(Google) ++ wire(RfcDraft13)",
+    "get_supported_version_first_four": "request::get_supported_version == Some(RfcDraft13) <=> draft-13 among the first four VER words, for every list of 0..=6 words (all 2^32 values per word)",
     "const_tables": "REQUEST_FRAMING_BYTES, TREE_*_TWEAK, HASH_PREFIX_SRV, MIN/MAX_REQUEST_LENGTH equal the protocol's",
 }
 
@@ -36,13 +37,17 @@ def sync_scratch(repo):
     # content-based sync: a file is rewritten (new mtime) exactly when its bytes differ, so cargo's
     # mtime fingerprints can never mistake changed source for fresh
     subprocess.run(["rsync", "-r", "--checksum", "--delete", "--exclude", "target", "--exclude", ".git",
-                    "--exclude", "/src/lib.rs", repo.rstrip("/") + "/", SCRATCH + "/"], check=True)
+                    "--exclude", "/src/lib.rs", "--exclude", "/src/request.rs", repo.rstrip("/") + "/", SCRATCH + "/"], check=True)
     import gen_tables
     gen_tables.main()
     lib = open(os.path.join(repo, "src/lib.rs")).read() + "\n" + open(os.path.join(VERIF, "tools/kani_tables_gen.rs")).read()
     dst = os.path.join(SCRATCH, "src/lib.rs")
     if not os.path.exists(dst) or open(dst).read() != lib:
         open(dst, "w").write(lib)
+    req = open(os.path.join(repo, "src/request.rs")).read() + "\n" + open(os.path.join(VERIF, "tools/kani_request_gen.rs")).read()
+    dst = os.path.join(SCRATCH, "src/request.rs")
+    if not os.path.exists(dst) or open(dst).read() != req:
+        open(dst, "w").write(req)
 
 
 def parse(out):
@@ -125,7 +130,10 @@ def run(repo, harnesses, tier, workroot):
                 blocks = [b for b in blocks if "Check for `assertion`" in b] or blocks
                 r["counterexample"] = (blocks[0].strip() if blocks else None)
                 r["detail"] = "; ".join(r["failed_desc"])[:2000]
-                vals = [int(x) for x in re.findall(r"vec!\[(\d+)\]", blocks[0])] if blocks else []
+                vals = []
+                if blocks:
+                    for grp in re.findall(r"vec!\[([0-9, ]+)\]", blocks[0]):
+                        vals += [int(x) for x in grp.replace(" ", "").split(",") if x != ""]
                 r["counterexample_bytes"] = vals
                 r["native_replay"] = native_replay(h, vals, env)
             hs.append(r)
